@@ -5,6 +5,7 @@ splitting, trimming and replacing; Python `re` plus match-record construction
 for regex) + law monitors (split/join inverse, trim idempotence, index/slice
 consistency).
 """
+import itertools
 import re
 
 import yaql
@@ -301,6 +302,53 @@ def regex_cases(rng):
             lambda sel=sel: rx.sub(lambda m: sel.fn(msx.match_records(m)), s, k)), i2
 
 
+ESC_PATTERNS = [r'\(?<br>\)?', r'[\](?<a>]+', r'\(\?<x>a\)', r'a\\(?P<n>b)', r'\\(?P<n>a)', r'\[?<a>\]?', r'(?<=a)b', r'(?<!a)b',
+                r'\(?P<x>\)', r'<(?P<t>\w+)>', r'\\\(a\)', r'[\\\]]+', r'\(?<br>', r'(?P<n>a)(?P=n)', r'\?<a>', r'a\.b', r'\\.',
+                r'[(?<a>]+', r'\$', r'\^a', r'\bab\b', r'\d+', r'\\d', r'(\()(\))']
+ESC_SUBJECTS = ['<br>', '(?<br>)', 'P]a(', 'ab', 'a\\b', '(a)', '<a>x</a>', '\\a', ']\\]', 'aa', 'a.b', 'axb', '?<a>', '$^a', 'ab ab', 'a1\\d22',
+                '()', '[?<a>]']
+ESC_TEMPLATES = [r'\\d', r'C:\\Users\\demo', r'\\\\d', r'x\\wy', r'\\1', r'\1', r'\g<0>', r'\\g<0>', r'\n', r'\\n', r'\\', r'\\\\',
+                 r'a\\b\\c', r'\t', r'\\t', r'[\g<0>]', r'\\Users', r'\\.', '<\\>']
+
+
+def regex_escape_cases(rng):
+    """patterns, subjects and replacement templates in which backslashes, brackets and group syntax meet: the
+    functions hand the pattern and the template to the regular-expression engine exactly as written"""
+    pat = rng.choice(ESC_PATTERNS) if rng.random() < 0.8 else rng.choice(ESC_PATTERNS) + rng.choice(ESC_PATTERNS)
+    subj = rng.choice(ESC_SUBJECTS) + (rng.choice(ESC_SUBJECTS) if rng.random() < 0.4 else '')
+    info = {'named': 0, 'groups': 0}
+    v = {'s': subj, 'p': pat}
+
+    def thunk(f):
+        def run():
+            return f(re.compile(pat))
+        return run
+    for recv, label in (('regex(%s)' % lit(pat), 'literal'), ('regex($p)', 'variable')):
+        yield 'escapes-matches-' + label, '%s.matches($s)' % recv, v, thunk(lambda rx: rx.search(subj) is not None), info
+        yield 'escapes-search-' + label, '%s.search($s)' % recv, v, thunk(lambda rx: (rx.search(subj).group() if rx.search(subj) else None)), info
+        yield 'escapes-searchAll-' + label, '%s.searchAll($s)' % recv, v, thunk(lambda rx: [m.group() for m in rx.finditer(subj)]), info
+        yield 'escapes-split-' + label, '%s.split($s)' % recv, v, thunk(lambda rx: rx.split(subj)), info
+        yield 'escapes-replace-' + label, "%s.replace($s, '_')" % recv, v, thunk(lambda rx: rx.sub('_', subj)), info
+    yield 'escapes-matches-op-str', '$s =~ %s' % lit(pat), v, thunk(lambda rx: rx.search(subj) is not None), info
+    yield 'escapes-not-matches-op-str', '$s !~ $p', v, thunk(lambda rx: rx.search(subj) is None), info
+    yield 'escapes-matches-str', '$s.matches(%s)' % lit(pat), v, thunk(lambda rx: rx.search(subj) is not None), info
+    # replacement templates
+    tmpl = rng.choice(ESC_TEMPLATES)
+    tp, ts = rng.choice((('a', 'a1a'), ('(a)', 'xaya'), ('\\d', 'a1b22'), ('(?P<g>b)', 'abc')))
+    tp = tp.replace('\\\\', '\\')
+    v2 = {'s': ts, 'p': tp, 't': tmpl}
+
+    def tthunk(count=None):
+        def run():
+            rx = re.compile(tp)
+            return rx.sub(tmpl, ts) if count is None else rx.sub(tmpl, ts, count)
+        return run
+    yield 'escapes-template-literal', 'regex(%s).replace($s, %s)' % (lit(tp), lit(tmpl)), v2, tthunk(), info
+    yield 'escapes-template-variable', 'regex($p).replace($s, $t)', v2, tthunk(), info
+    yield 'escapes-template-str-recv', '$s.replace(regex($p), %s)' % lit(tmpl), v2, tthunk(), info
+    yield 'escapes-template-count', 'regex($p).replace($s, $t, 1)', v2, tthunk(1), info
+
+
 def lit_raw(t):
     """t is already written with yaql escapes (\\\\ for one backslash)"""
     return "'" + t.replace("'", "\\'") + "'"
@@ -420,8 +468,10 @@ def run_shard(spec, rec):
                     rec.sample({'function': name, 'text': text, 'vars': repr(vars_)})
         elif spec['kind'] == 'regex':
             for i in range(spec['count']):
-                for name, text, vars_, thunk, info in regex_cases(rng):
+                for name, text, vars_, thunk, info in itertools.chain(regex_cases(rng), regex_escape_cases(rng)):
                     rec.count('regex.cases')
+                    if name.startswith('escapes-'):
+                        rec.count('regex.escape_cases')
                     if info.get('selector'):
                         rec.count('regex.selector_cases')
                         if info['named']:
